@@ -120,8 +120,22 @@ def src_oracle(line, impl, model, ref=None):
     return None
 
 
+def gen_bin_lines(rng, n, tier):
+    from checks import c07
+    ls = []
+    for fmt in ("cbor", "msgpack", "ubjson", "bson"):
+        ins = c07.cbor_inputs(rng, n, tier) if fmt == "cbor" else c07.fmt_inputs(fmt, rng, n, tier)
+        for b in ins:
+            ls.append("bin deliver %s %s x%s" % (fmt, "m4096" if fmt == "ubjson" else "-", b.hex()))
+    return ls
+
+
 def oracle(line, impl, model, ref=None):
     t = line.split()
+    if t[0] == "bin":
+        if not impl.startswith("same "):
+            return "deliveries of one %s input disagree (buffer vs stream sources with 1..16-byte buffers vs cursors): %s" % (t[2], impl[:300])
+        return None
     if t[0] == "src":
         return src_oracle(line, impl, model, ref)
     if t[1] != "deliver":
@@ -135,6 +149,8 @@ def oracle(line, impl, model, ref=None):
 
 def nontrivial(line, impl):
     t = line.split()
+    if t[0] == "bin":
+        return line if len(t[4]) > 8 else None
     if t[0] == "src":
         return line if len(t) > 7 else None
     return t[4] if len(t[4]) > 6 else None
@@ -142,9 +158,14 @@ def nontrivial(line, impl):
 
 def streams(ctx, rng, scale):
     lw = vlib.witness_lines(PROP)
-    ctx.correspond("finding-witnesses", HARNESS, lw, oracle, nontrivial, ref_lines=c02.with_ref(lw), want_model=False)
+    lwj = [w for w in lw if w.startswith("jt ")]
+    ctx.correspond("finding-witnesses", HARNESS, lwj, oracle, nontrivial, ref_lines=c02.with_ref(lwj), want_model=False)
+    lwb = [w for w in lw if w.startswith("bin ")]
+    ctx.correspond("finding-witnesses-binary", "bin", lwb, oracle, nontrivial, want_model=False)
     lo = gen_src_lines(rng, 3000 * scale)
     ctx.correspond("stream_source-ops", "src", lo, oracle, nontrivial)
+    lb = gen_bin_lines(rng, 250 * scale, ctx.tier)
+    ctx.correspond("binary-deliveries", "bin", lb, oracle, nontrivial, want_model=False)
     ls = gen_lines(rng, 700 * scale)
     ctx.correspond("json-deliveries", HARNESS, ls, oracle, nontrivial, ref_lines=c02.with_ref(ls), want_model=False)
 
